@@ -60,9 +60,9 @@ GroupTab == [ A |-> <<"port", "token">>, B |-> <<"dir", "persistent">>, C |-> <<
 
 \* canonical document paths of the settings
 Sec(s) == CASE s = "ttl" -> "node" [] s = "port" -> "control" [] s = "token" -> "control"
-            [] s = "pow" -> "announce" [] s = "dir" -> "storage" [] s = "persistent" -> "storage"
+            [] s = "pow" -> "announce" [] s = "dir" -> "storage" [] s = "persistent" -> "storage" [] s = "aap" -> "control"
 Key(s) == CASE s = "ttl" -> "default_ttl_seconds" [] s = "port" -> "port" [] s = "token" -> "token"
-            [] s = "pow" -> "pow_difficulty" [] s = "dir" -> "directory" [] s = "persistent" -> "persistent"
+            [] s = "pow" -> "pow_difficulty" [] s = "dir" -> "directory" [] s = "persistent" -> "persistent" [] s = "aap" -> "advertise_allow_private"
 
 \* decoys that must never win: a profile off the chain, the "other" root name, another environment
 OtherCode == 8
